@@ -56,7 +56,20 @@ fn mutate_bytes(t: &mut Tape<'_>, mut v: Vec<u8>) -> Vec<u8> {
 }
 
 fn pathological(t: &mut Tape<'_>, n: usize) -> (Vec<u8>, &'static str) {
-    match t.below(8) {
+    match t.below(11) {
+        // any single construct repeated n times inside a context that changes how it is counted
+        // or tokenised (per-construct counters, depth fields, state kept per open element)
+        8..=10 => {
+            let ctx = *t.pick(&["", "<select>", "<select><template>", "<table>", "<svg>", "<math>", "<frameset>", "<template>", "<svg><foreignObject>", "<math><mi>", "<select><optgroup>", "<ul><li>"]);
+            let frag = if t.chance(1, 2) {
+                t.pick(&["<template>", "<select>", "<option>", "<table>", "<td>", "<svg>", "<math>", "<foreignObject>", "<mi>", "<desc>", "<title>", "</title>", "<font color=a>", "<p>", "</p>", "</br>", "<br>", "<a>", "<b>", "<li>", "<dd>", "<frameset>", "<esi:include>", "<script>", "</select>", "<input>", "<textarea>", "<!-->", "<![CDATA[", "<annotation-xml encoding=text/html>"]).to_string()
+            } else {
+                t.pick(crate::gens::soup::HTML_FRAGS).to_string()
+            };
+            let mut v = ctx.as_bytes().to_vec();
+            v.extend(frag.repeat(n).into_bytes());
+            (v, "repeated_construct_in_context")
+        }
         0 => ("<div>".repeat(n).into_bytes(), "deep_nesting"),
         1 => (format!("<{}>", "t".repeat(n * 8)).into_bytes(), "long_tag_name"),
         2 => (format!("<a {}>", (0..n).map(|i| format!("a{i}=v ")).collect::<String>()).into_bytes(), "many_attributes"),
@@ -198,6 +211,7 @@ pub const BIG: &[(&str, usize)] = &[
     ("two_thousand_selectors", 2_000),
     ("deeply_nested_not_selector", 5_000),
     ("deep_foreign_nesting_100k", 100_000),
+    ("select_template_nesting_strict_70k", 70_000),
     ("one_megabyte_comment_bytewise_limit", 200_000),
 ];
 
@@ -245,6 +259,10 @@ pub fn run_big(name: &str, n: usize) -> Result<String, String> {
                 }
             }
             return Ok(format!("parse results ok={outcomes:?}"));
+        }
+        "select_template_nesting_strict_70k" => {
+            cfg.strict = true;
+            format!("<select>{}", "<template>".repeat(n)).into_bytes()
         }
         "deep_foreign_nesting_100k" => {
             cfg.docs.push(DocSpec { text: true, comments: true, ..Default::default() });
